@@ -517,7 +517,9 @@ def oracle(case, out):
             subin_since_events.clear()
             for kind, p, extra in parse_events(o):
                 if kind in ("opened", "closed"):
-                    boundary_step[p] = i
+                    # the event was put on the channel some time after the previous drain: an open request accepted
+                    # by the handle since then may belong to the next round already
+                    boundary_step[p] = prev_events
             prev_events = i
         if t[0] in ("accept", "reject"):
             quiet[peer] = False
